@@ -908,6 +908,29 @@ def effect(index, rep, sinfo, disp):
         rep.check(len(opt_fams) <= 1 or k in SHARED_OK, rule, f"shared-key:{k}",
                   f"constant {k} is written by several option families {fams}: the second application silently overrides the "
                   "first, so one option changes another option's constants", loc=SCEN)
+    # a constant two option families write: the family applied last decides it.  If that family writes the same value whatever its option
+    # says while a family applied earlier writes different values for different option values, the earlier option is silently without effect
+    chain_order = list(disp["chains"])
+    fam_pos = {disp["fam_of_key"][k_]: i_ for i_, k_ in enumerate(chain_order) if k_ in disp["fam_of_key"]}
+
+    def values_of(fam, key):
+        vals = set()
+        for n_ in by_fam.get(fam, []):
+            for st_, cond_, v_ in keysets[n_].get(key, []):
+                v_ = v_ if v_ is not None else getattr(st_, "value", None)
+                vals.add(norm_src(v_) if v_ is not None else "?")
+        return vals
+
+    for k, fams in sorted(multi.items()):
+        opt_fams = [f for f in owners[k] if f not in ("SCALE_SET", "GENERIC_INITIALIZED_SET") and f in fam_pos]
+        if len(opt_fams) < 2:
+            continue
+        last = max(opt_fams, key=lambda f: fam_pos[f])
+        overridden = [f for f in opt_fams if f != last and len(values_of(f, k)) > 1]
+        rep.check(not (len(values_of(last, k)) == 1 and overridden), rule, f"shared-key-order:{k}",
+                  f"constant {k} is written by the option families {sorted(map(str, opt_fams))}; {last} is applied last and always writes "
+                  f"{sorted(values_of(last, k))}, so what {sorted(map(str, overridden))} chose for it ({sorted(values_of(overridden[0], k)) if overridden else ''}) "
+                  "is overridden: those option values are accepted and silently ignored", loc=loc(RUN, disp["fn"]))
     rep.note_analysed("keys_written_by_scale_and_an_option", {k: v for k, v in multi.items()})
     rep.require_min(rule, 60)
 
